@@ -21,13 +21,12 @@ def main():
     cases = codec.gen_schemas(chk.tier, chk.seed, want_random=200 if quick else 3000, k=2)
     if quick:
         cases = [c for i, c in enumerate(cases) if c[0] != "exhaustive" or i % 5 == 0]
-    # the claim for messages with a greedy tail covers only the members before it; those are
-    # exercised through the same structs without the tail, so unlimited roots are left out
-    cases = [c for c in cases if S.stiffness(c[2]) < 2]
+    # messages with a greedy tail (unlimited roots) are judged by a second oracle (Coq side, cpp_swap_unl_case): only
+    # the members before the root's last member are converted, the rest of the buffer stays, its address is returned
     corp = []
     for pid in ("C09", "C03", "C01", "C04"):
         for f, t, vs, j in codec.load_corpus(pid):
-            if f not in [c[1] for c in corp] and S.stiffness(t) < 2:
+            if f not in [c[1] for c in corp]:
                 corp.append(("corpus", f, t))
     cases = corp + cases
     corpus_values = {}
@@ -56,6 +55,7 @@ def main():
     out = cpprun.run_raw(cj, sanitize=True, timeout=600)
     errors = {}
     entries = []
+    uentries = []
     n = 0
     for j in cj:
         r = out.get(j["id"], {})
@@ -71,6 +71,14 @@ def main():
             v = S.value_from_json(jobs[j["id"]]["values"][vi])
             chk.seen_class(S.shape_class(t, v), S.nontrivial(t, v))
             bad = None
+            unl = S.stiffness(t) == 2
+            if unl and "crash" not in o and "bytes" in o:
+                uentries.append((j["id"], vi, rv, o))
+            if unl and "crash" not in o:
+                if "bytes" in o:
+                    entries.append((j["id"], vi, rv[">"], o))
+                n += 1
+                continue
             if "crash" in o:
                 bad = "swap crashed / AddressSanitizer report: %s" % o["crash"]
             elif o.get("bytes") != rv["<"]:
@@ -107,10 +115,31 @@ def main():
             "kind": "model/implementation correspondence broken (swap): CppSwap.cpp_swap and the compiled prophy::swap disagree",
             "model_result": r[:8], "cpp": {k: o.get(k) for k in ("ret", "bytes", "canary_ok")}}), "no-failing-input-found", match=False)
     chk.coverage["swap_model_cases"] = len(entries)
-    chk.coverage["rule"] = ("schemas without a greedy tail (exhaustive-small sampled + random), values as in C01; the big-endian canonical "
+
+    def uex(en, names):
+        i, vi, rv, o = en
+        tt = S.to_coq(cases[i][2], names)
+        vv = S.value_coq(S.value_from_json(jobs[i]["values"][vi]))
+        return "(%d, %d, cpp_swap_unl_case %s %s %s %s %s (%d) ++ (if %s then [] else [98]))" % (
+            i, vi, tt, vv, codec.hex_coq(rv[">"]), codec.hex_coq(rv["<"]), codec.hex_coq(o["bytes"]), o.get("ret", -1),
+            "true" if o.get("canary_ok") else "false")
+
+    files = codec.write_case_files(work, "unl", uentries, uex)
+    for i, vi, r in codec.eval_case_files(files):
+        rv, o = [(x[2], x[3]) for x in uentries if x[0] == i and x[1] == vi][0]
+        off = r[1] if len(r) > 1 and r[0] == 96 else None
+        chk.violation("swapunl-%d-%d" % (i, vi), C.case_of(cases, jobs, i, vi, {
+            "kind": "swap of a message with a greedy tail: the members before the unlimited member must be converted, the rest left "
+                    "alone and the unlimited member's address returned",
+            "unlimited_member_offset": off, "bytes_ok": bool(len(r) > 2 and r[0] == 96 and r[2] == 1), "ret": o.get("ret"),
+            "canary_ok": o.get("canary_ok"), "foreign": rv[">"], "native": rv["<"], "cpp": {k: o.get(k) for k in ("ret", "bytes", "canary_ok")},
+            "result": r[:6]}))
+    chk.coverage["greedy_tail_cases"] = len(uentries)
+    chk.coverage["rule"] = ("all schemas (exhaustive-small sampled + random, special shapes), values as in C01; the big-endian canonical "
                             "encoding (from the Python encoder) is placed between two 64-byte canaries in an 8-aligned buffer and "
                             "prophy::swap<Root> is called (compiled with AddressSanitizer); oracle: buffer equals the little-endian "
-                            "canonical encoding, canaries intact, returned pointer = message end.")
+                            "canonical encoding, canaries intact, returned pointer = message end; for roots with a greedy tail: bytes before the "
+                            "root's last member converted, all later bytes unchanged, returned pointer = that member's offset (Coq side).")
     if cj:
         chk.sample({"schema": cj[len(cj) // 2]["text"], "op": cj[len(cj) // 2]["ops"][0]})
     chk.assumptions += ["strict-aliasing / unaligned-access UB of the generated casts is not checked (ASan only)",
